@@ -74,11 +74,15 @@ Refs == {"from", "from_alias", "item", "item_alias", "none", "qualified"}
 DeclName(kind) == CASE kind = "const" -> "LIMIT" [] kind = "def" -> "helper" [] kind = "model" -> "Thing"
                     [] kind = "class" -> "Box" [] kind = "newtype" -> "UserId" [] kind = "enum" -> "Color"
                     [] kind = "trait" -> "Named"
-VisImport(ref, msegs, name) ==
-  CASE ref \in {"from", "from_alias"} -> [kind |-> "from", levels |-> 0, abs |-> FALSE, segs |-> msegs]
-    [] ref \in {"item", "item_alias"} -> [kind |-> "mod", levels |-> 0, abs |-> FALSE, segs |-> Append(msegs, name)]
-    [] ref = "none" -> [kind |-> "from", levels |-> 0, abs |-> FALSE, segs |-> msegs]      \* `from M import other`
-    [] ref = "qualified" -> [kind |-> "mod", levels |-> 0, abs |-> FALSE, segs |-> msegs]
+\* route: how the importer reaches the module - "same" directory, through its parent (`..m` / `super::m`, the entry
+\* lives in a sub-directory), or from the crate root (`crate.m`, the entry lives under src/sub/ and the module in src/)
+Routes == {"same", "up", "crate"}
+RLevels(route) == IF route = "up" THEN 1 ELSE 0
+VisImport(ref, msegs, name, route) ==
+  CASE ref \in {"from", "from_alias"} -> [kind |-> "from", levels |-> RLevels(route), abs |-> route = "crate", segs |-> msegs]
+    [] ref \in {"item", "item_alias"} -> [kind |-> "mod", levels |-> RLevels(route), abs |-> route = "crate", segs |-> Append(msegs, name)]
+    [] ref = "none" -> [kind |-> "from", levels |-> RLevels(route), abs |-> route = "crate", segs |-> msegs]      \* `from M import other`
+    [] ref = "qualified" -> [kind |-> "mod", levels |-> RLevels(route), abs |-> route = "crate", segs |-> msegs]
 
 \* spelling universe
 Styles == {[sep |-> s, up |-> u] : s \in {"::", "."}, u \in {"super", "dots"}}
@@ -106,9 +110,9 @@ Next ==
         /\ \E im \in ImportsUT, st \in Styles, al \in {"", "Al"} :
              c' = [stage |-> "case", imp |-> im, style |-> st, alias |-> al]
      \/ /\ mode = "vis" /\ c.stage = "root"
-        /\ \E ku \in KindUses, pb \in BOOLEAN, rf \in Refs, ms \in {<<"m">>, <<"p", "q">>} :
+        /\ \E ku \in KindUses, pb \in BOOLEAN, rf \in Refs, ms \in {<<"m">>, <<"p", "q">>}, rt \in Routes :
              /\ (rf = "qualified" => ku[2] \in {"call", "ctor"})     \* the docs promise no `M.const` / `M.Enum.V`
-             /\ c' = [stage |-> "case", kind |-> ku[1], use |-> ku[2], pub |-> pb, ref |-> rf, msegs |-> ms]
+             /\ c' = [stage |-> "case", kind |-> ku[1], use |-> ku[2], pub |-> pb, ref |-> rf, msegs |-> ms, route |-> rt]
 IsCase(md) == mode = md /\ c.stage = "case"
 
 \* ---- a resolve case, unfolded
@@ -145,12 +149,14 @@ AgreeCore == (IsCase("resolve") /\ c.hop = "direct" /\ (c.imp.kind = "from" \/ L
 
 \* ---- a visibility case, unfolded
 VName == DeclName(c.kind)
-VModFile == WithExt(R \o c.msegs, "incn")
-VMain == Append(R, "main.incn")
-VImp == VisImport(c.ref, c.msegs, VName)
+VMainDir == CASE c.route = "same" -> R [] c.route = "up" -> Append(R, "app") [] c.route = "crate" -> R \o <<"src", "sub">>
+VModBase == IF c.route = "crate" THEN Append(R, "src") ELSE R
+VModFile == WithExt(VModBase \o c.msegs, "incn")
+VMain == Append(VMainDir, "main.incn")
+VImp == VisImport(c.ref, c.msegs, VName, c.route)
 VFiles == {VMain, VModFile}
-VCliLoaded == CliResolve(VFiles, R, VImp) = VModFile
-VLspLoaded == SharedResolve(VFiles, R, VImp) = VModFile
+VCliLoaded == CliResolve(VFiles, VMainDir, VImp) = VModFile
+VLspLoaded == SharedResolve(VFiles, VMainDir, VImp) = VModFile
 \* validate_import_visibility looks the module up under segs.join("_"); the CLI names a dependency
 \* module_segments.join("_"), the LSP names it by the file stem
 VCliKeyed == TRUE
@@ -180,7 +186,7 @@ Emit ==
                                   text |-> Render(c.imp, c.style, "Item", c.alias)])>>)
     [] mode = "vis" ->
          PrintT(<<"CASE", ToJson([mode |-> "vis", kind |-> c.kind, use |-> c.use, pub |-> c.pub, ref |-> c.ref,
-                                  msegs |-> c.msegs, name |-> VName, main |-> VMain, modfile |-> VModFile,
+                                  msegs |-> c.msegs, route |-> c.route, name |-> VName, main |-> VMain, modfile |-> VModFile,
                                   demanded |-> Demanded(c.pub), cli |-> VCli, lsp |-> VLsp,
                                   cli_loaded |-> VCliLoaded, lsp_loaded |-> VLspLoaded])>>)
 =============================================================================
